@@ -31,6 +31,10 @@ type op struct {
 type program struct {
 	Fam int  `json:"fam"` // 0 generic, 1 interface{}
 	Ops []op `json:"ops"`
+	// Poison: before the program, the interface{} family is called with an unhashable element after some
+	// ordinary ones (each call panics, with and without any change; the panics are recovered and
+	// ignored): what the program's operations return must not depend on calls made earlier on other values
+	Poison bool `json:"poison,omitempty"`
 }
 
 func (o op) String() string {
@@ -1146,6 +1150,9 @@ type outcome struct {
 }
 
 func runProgram(p program) outcome {
+	if p.Poison {
+		poisonCalls()
+	}
 	w := newWorld(p.Fam)
 	var out outcome
 	for _, o := range p.Ops {
@@ -1281,6 +1288,15 @@ func genKeys(t *rapid.T, label string, maxLen int) []int {
 }
 
 func genNewStream(t *rapid.T, fam int) op {
+	if rapid.IntRange(0, 11).Draw(t, "long") == 0 {
+		// now and then a long stream (an implementation may switch algorithm with the length)
+		n := rapid.IntRange(33, 70).Draw(t, "long_n")
+		e := make([]int, n)
+		for i := range e {
+			e[i] = rapid.IntRange(0, 6).Draw(t, "long_e")
+		}
+		return op{K: "newStream", V: []int{rapid.IntRange(0, 2).Draw(t, "kind")}, L: [][]int{e}}
+	}
 	return op{K: "newStream", V: []int{rapid.IntRange(0, 2).Draw(t, "kind")}, L: [][]int{genElems(t, fam, "e", 8)}}
 }
 
@@ -1438,8 +1454,11 @@ func propProgram(t *rapid.T) {
 	fam := rapid.IntRange(0, 1).Draw(t, "family")
 	maxSteps := vlib.Pick(25, 60)
 	n := rapid.IntRange(1, maxSteps).Draw(t, "steps")
+	p := program{Fam: fam, Poison: rapid.IntRange(0, 7).Draw(t, "poison") == 0}
+	if p.Poison {
+		poisonCalls()
+	}
 	w := newWorld(fam)
-	p := program{Fam: fam}
 	// a small initial population so that every sort has a receiver
 	init := []op{genNewStream(t, fam), genNewStream(t, fam), genNewSet(t), genNewSSet(t, fam), genNewSSet(t, fam)}
 	for _, o := range init {
